@@ -1,5 +1,84 @@
-import Cppcms.C04.Model
-import Cppcms.C04.Spec
+import Cppcms.C04.Lemmas
+/-!
+C04 — property theorems.
+
+Property: "For every input text and every rule set, the text returned by the filter passes
+validation under the same rules, and every tag, attribute, attribute value, URI scheme, entity and
+comment in it is one the rules allow — nothing that opens markup survives outside such an allowed
+construct, in both remove and escape modes.  Input that validates is returned unchanged, and
+validation never accepts text that is not well-formed in the declared character encoding."
+
+Model: `Model.lean` (faithful transcription of src/xss.cpp; constants from `Gen.lean`).
+Spec:  `Spec.lean` (`lenientMarkup`, `Allowed`), independent of the model.
+`Rules` carries arbitrary attribute-value predicates (regex / URI validators are instances).
+The encoding clause is not modelled here (rules.encoding() = ""), see design.d/C04.md.
+-/
 namespace Cppcms.C04.Props
-theorem stub : True := trivial
+open Cppcms Cppcms.C04
+
+/-! ### full-strength statements -/
+
+/-- (1) the filter's output validates, for every rule set, method and input -/
+def FilterValidates : Prop :=
+  ∀ (r : Rules) (m : Method) (x : Bytes), RulesOk r → validate r (filter r m x) = true
+
+/-- (1)+(3) the filter's output contains only white-listed markup -/
+def FilterOutputWhitelisted : Prop :=
+  ∀ (r : Rules) (m : Method) (x : Bytes), RulesOk r → Spec.OnlyWhitelisted r (filter r m x)
+
+/-! ### proved -/
+
+/-- (2) input that validates is returned unchanged (both methods) -/
+theorem valid_is_fixed_point (r : Rules) (m : Method) (x : Bytes) (h : validate r x = true) :
+    filter r m x = x :=
+  Cppcms.C04.valid_is_fixed_point r m x h
+
+/-- the three entry points agree: `validate_and_filter_if_invalid` returns true (leaving its
+output argument untouched) exactly when `validate` does -/
+theorem validateAndFilter_none_iff (r : Rules) (m : Method) (x : Bytes) :
+    validateAndFilter r m x = none ↔ validate r x = true :=
+  validateAndFilter_eq_none r m x
+
+/-- (3) whatever validates contains only white-listed markup, as cut by the independent lenient
+tokenizer: every `<`, `>`, `&` of `y` belongs to a tag / entity / comment the rules allow, with
+allowed attributes whose values pass their predicates and contain no markup bytes. -/
+theorem whitelist_only (r : Rules) (y : Bytes) (h : validate r y = true) :
+    ∀ m ∈ Spec.lenientMarkup y, Spec.Allowed r m :=
+  Cppcms.C04.whitelist_only r y h
+
+/-- (1) ⇒ (1)+(3): once the filter's output is known to validate, it is white-listed -/
+theorem whitelisted_of_filterValidates (h : FilterValidates) : FilterOutputWhitelisted :=
+  fun r m x hr => whitelist_only r _ (h r m x hr)
+
+/-! ### non-vacuity -/
+
+/-- `<a href="…">` (opening_and_closing, href = alphanumerics), `<br/>` (stand_alone) -/
+def exRules (xhtml : Bool) : Rules where
+  xhtml := xhtml
+  tagKind := fun n => if n = [97] then .openingAndClosing else if n = [98, 114] then .standAlone else .invalidTag
+  prop := fun t p => if t = [97] ∧ p = [104, 114, 101, 102] then some (.pred fun v => v.all isAlnum) else none
+  entity := fun n => (Gen.defaultEntities.map bytesOf).contains n
+  comments := true
+  numeric := false
+
+theorem exRules_ok (x : Bool) : RulesOk (exRules x) := by
+  cases x <;> exact ⟨by decide, by decide, by decide, by decide⟩
+
+/-- `<a href='x1'>t&amp;</a><br/><!-- c -->` -/
+def exValid : Bytes :=
+  [60, 97, 32, 104, 114, 101, 102, 61, 39, 120, 49, 39, 62, 116, 38, 97, 109, 112, 59, 60, 47, 97, 62, 60, 98, 114, 47, 62,
+   60, 33, 45, 45, 32, 99, 32, 45, 45, 62]
+
+/-- `<a href='x 1'>t</a><b>&foo;` : bad attribute value, unknown tag, unknown entity -/
+def exInvalid : Bytes :=
+  [60, 97, 32, 104, 114, 101, 102, 61, 39, 120, 32, 49, 39, 62, 116, 60, 47, 97, 62, 60, 98, 62, 38, 102, 111, 111, 59]
+
+example : validate (exRules true) exValid = true := by decide +kernel
+example : (Spec.lenientMarkup exValid).length = 5 := by decide +kernel
+example : validate (exRules true) exInvalid = false := by decide +kernel
+/-- remove: `t`; escape: `&lt;a href='x 1'&gt;t&lt;/a&gt;&lt;b&gt;&amp;foo;` -/
+example : filter (exRules true) .remove exInvalid = [116] := by decide +kernel
+example : validate (exRules true) (filter (exRules true) .escape exInvalid) = true := by decide +kernel
+example : filter (exRules true) .escape exInvalid ≠ exInvalid := by decide +kernel
+
 end Cppcms.C04.Props
